@@ -118,10 +118,27 @@ func condStrings(conds []ir.Cond) []string {
 // which every outcome of a call to a private boolean helper is replaced by the
 // conditions under which the helper returns that value.
 func expandPredicateHelpers(c *chk.Ctx, conds []ir.Cond, depth int) [][]ir.Cond {
+	return expandPredicateHelpersKeep(c, conds, depth, nil)
+}
+
+// expandPredicateHelpersKeep is expandPredicateHelpers with a set of outcomes
+// (keep) that are recognised as they stand and must not be looked into.
+func expandPredicateHelpersKeep(c *chk.Ctx, conds []ir.Cond, depth int, keep func(ir.Cond) bool) [][]ir.Cond {
 	alts := [][]ir.Cond{{}}
 	for _, cd := range conds {
 		var repl [][]ir.Cond
-		if call, ok := cd.V.(*ssa.Call); ok && depth < 3 {
+		if keep != nil && keep(cd) {
+			repl = [][]ir.Cond{{cd}}
+		}
+		if _, isPhi := cd.V.(*ssa.Phi); isPhi && depth < 3 && repl == nil {
+			// a short-circuit && / || whose outcome leaves several paths open
+			if pa := ir.CondAlternatives(cd, 0); len(pa) > 1 || (len(pa) == 1 && !(len(pa[0]) == 1 && pa[0][0].V == cd.V)) {
+				for _, a := range pa {
+					repl = append(repl, expandPredicateHelpersKeep(c, a, depth+1, keep)...)
+				}
+			}
+		}
+		if call, ok := cd.V.(*ssa.Call); ok && depth < 3 && repl == nil {
 			if h := call.Call.StaticCallee(); h != nil && c.P.InRepo[h] && !ir.Exported(h) && h.Signature.Results().Len() == 1 && h.Signature.Results().At(0).Type().String() == "bool" {
 				constRet := true
 				for _, r := range ir.Returns(h) {
@@ -136,7 +153,7 @@ func expandPredicateHelpers(c *chk.Ctx, conds []ir.Cond, depth int) [][]ir.Cond 
 						}
 						for _, alt := range ir.CondAlternatives(ir.Cond{V: v, Truth: cd.Truth}, 0) {
 							base := ir.CondsAt(r.Block())
-							for _, e := range expandPredicateHelpers(c, append(append([]ir.Cond{}, base...), alt...), depth+1) {
+							for _, e := range expandPredicateHelpersKeep(c, append(append([]ir.Cond{}, base...), alt...), depth+1, keep) {
 								repl = append(repl, dedupConds(e))
 							}
 						}
@@ -145,10 +162,10 @@ func expandPredicateHelpers(c *chk.Ctx, conds []ir.Cond, depth int) [][]ir.Cond 
 					if (k.Value.String() == "true") == cd.Truth {
 						if len(r.Block().Preds) > 1 {
 							for _, p := range r.Block().Preds {
-								repl = append(repl, expandPredicateHelpers(c, ir.EdgeConds(p, r.Block()), depth+1)...)
+								repl = append(repl, expandPredicateHelpersKeep(c, ir.EdgeConds(p, r.Block()), depth+1, keep)...)
 							}
 						} else {
-							repl = append(repl, expandPredicateHelpers(c, ir.CondsAt(r.Block()), depth+1)...)
+							repl = append(repl, expandPredicateHelpersKeep(c, ir.CondsAt(r.Block()), depth+1, keep)...)
 						}
 					}
 				}
@@ -182,11 +199,11 @@ func expandPredicateHelpers(c *chk.Ctx, conds []ir.Cond, depth int) [][]ir.Cond 
 							switch {
 							case ir.IsNilConst(e):
 								if wantNil {
-									repl = append(repl, expandPredicateHelpers(c, conds[i], depth+1)...)
+									repl = append(repl, expandPredicateHelpersKeep(c, conds[i], depth+1, keep)...)
 								}
 							case isAlloc:
 								if !wantNil {
-									repl = append(repl, expandPredicateHelpers(c, conds[i], depth+1)...)
+									repl = append(repl, expandPredicateHelpersKeep(c, conds[i], depth+1, keep)...)
 								}
 							default:
 								known = false
